@@ -1303,7 +1303,7 @@ def _typed_reply(name, svc, ctx, elsize, fmt):
 
 _typed_reply('get_attributes_all_reply', 0x81, 'get_attributes_all', 1, 'B')
 _typed_reply('get_attribute_single_reply', 0x8E, 'get_attribute_single', 1, 'B')
-_typed_reply('get_attribute_list_reply', 0x83, 'get_attribute_list', 2, '<H')
+_typed_reply('get_attribute_list_reply', 0x83, 'get_attribute_list', 1, 'B')     # USINT data, as it is produced (repo fix 06259c6)
 _typed_reply('service_code_reply(0x99)', 0x99, 'service_code', 1, 'B')
 
 
